@@ -2,10 +2,14 @@
    Model/Cache.v is a hand-written transcription of src/storage/cache.rs and of the Cache-pool part
    of src/memory/budget.rs (constants regenerated from src/config/constants.rs into Gen/CacheConsts.v).
    [run step sched s0] ranges over every schedule, hence every number of threads and every
-   interleaving of the model's atomic steps (Lib/Interleave.v). *)
+   interleaving of the model's atomic steps (Lib/Interleave.v).
+   The model is the code as repaired by /repo 1cb9a1e (init failure releases the charge) and b391e62
+   (clear() counts under the shard locks); no known class remains.  The two HISTORICAL lemmas at the
+   end evaluate the model of the code before the repairs (Model/CacheV0.v). *)
 From Coq Require Import ZArith List Bool Arith.
 From TV Require Import Lib.Interleave Gen.CacheConsts Model.Cache
   Proof.CacheShard Proof.CacheInv Proof.CacheLookup Proof.CacheEffect Proof.CachePins Proof.CacheAcct.
+From TV Require Model.CacheV0 Proof.CacheV0.
 Import ListNotations.
 Open Scope Z_scope.
 
@@ -78,29 +82,40 @@ Theorem contents_last_write :
   contents_ok (run step sched (init_st total limit c0 o progs)).
 Proof. exact contents_run. Qed.
 
-(* budget accounting, outside the two recorded findings: with no operation in progress the Cache
-   pool holds exactly PAGE_SIZE per resident page (on top of what it held before); in particular
-   it is back at its initial value when the cache is empty *)
+(* budget accounting, for every schedule and all programs: with no operation in progress the Cache
+   pool holds exactly PAGE_SIZE per resident page on top of what it held before ... *)
 Theorem budget_accounting :
   forall total limit c0 o progs sched,
-  (NSH <= total)%nat -> NoDup (map fst progs) -> 0 <= c0 ->
+  (NSH <= total)%nat -> 0 <= c0 ->
   let s := run step sched (init_st total limit c0 o progs) in
-  gleak s = false -> grace s = false -> quiescent s -> used s = c0 + PAGE_SIZE * total_len s.
+  quiescent s -> used s = c0 + PAGE_SIZE * total_len s.
 Proof. exact budget_accounting_l. Qed.
 
-(* F-C35-1: an init closure that fails leaves one page charged for ever *)
-Theorem budget_refuted_init_failure :
-  exists progs sched,
-    let s := run step sched (init_st 64 4194304 0 0 progs) in
-    idle_b s = true /\ gleak s = true /\ grace s = false /\ total_len s = 0 /\ used s = PAGE_SIZE.
-Proof. exact budget_refuted_init_failure_l. Qed.
+(* ... in particular it is back at its initial value when the cache is emptied *)
+Theorem budget_zero_when_emptied :
+  forall total limit c0 o progs sched,
+  (NSH <= total)%nat -> 0 <= c0 ->
+  let s := run step sched (init_st total limit c0 o progs) in
+  quiescent s -> total_len s = 0 -> used s = c0.
+Proof. exact budget_zero_when_emptied_l. Qed.
 
-(* F-C35-2: an insert between len() and the shard clears of another thread's clear() *)
-Theorem budget_refuted_clear_race :
+(* HISTORICAL (Model/CacheV0.v = the code before 1cb9a1e): F-C35-1, an init closure that failed left
+   one page charged for ever *)
+Theorem historical_init_failure_leaked :
   exists progs sched,
-    let s := run step sched (init_st 64 4194304 0 0 progs) in
-    idle_b s = true /\ gleak s = false /\ grace s = true /\ total_len s = 0 /\ used s = PAGE_SIZE.
-Proof. exact budget_refuted_clear_race_l. Qed.
+    let s := run CacheV0.step sched (CacheV0.init_st 64 4194304 0 0 progs) in
+    CacheV0.idle_b s = true /\ CacheV0.gleak s = true /\ CacheV0.grace s = false /\
+    CacheV0.total_len s = 0 /\ CacheV0.used s = PAGE_SIZE.
+Proof. exact Proof.CacheV0.v0_init_failure_leaked. Qed.
+
+(* HISTORICAL (Model/CacheV0.v = the code before b391e62): F-C35-2, an insert between len() and the
+   shard clears of another thread's clear() left one page charged *)
+Theorem historical_clear_race_leaked :
+  exists progs sched,
+    let s := run CacheV0.step sched (CacheV0.init_st 64 4194304 0 0 progs) in
+    CacheV0.idle_b s = true /\ CacheV0.gleak s = false /\ CacheV0.grace s = true /\
+    CacheV0.total_len s = 0 /\ CacheV0.used s = PAGE_SIZE.
+Proof. exact Proof.CacheV0.v0_clear_race_leaked. Qed.
 
 (* ---------- non-vacuity ---------- *)
 (* the hypotheses are satisfiable and the interesting regime is reached: two threads, capacity one
@@ -110,7 +125,7 @@ Example c35_witness :
   let progs := [(0%nat, [OGetIns 0 true 11; OWrite 0 12; OUnpin 0]); (1%nat, [OGetIns 64 true 21; OGetIns 64 true 22; ORead 0])] in
   let s := run step (sched_of [(0%nat, 12%nat); (1%nat, 13%nat); (0%nat, 2%nat); (1%nat, 40%nat)]) (init_st 64 4194304 0 0 progs) in
   (NSH <= 64)%nat /\ progs_no_clear progs /\ NoDup (map fst progs) /\
-  idle_b s = true /\ gleak s = false /\ grace s = false /\
+  idle_b s = true /\
   option_map res (lget (thr s) 1%nat) = Some [RData None; RIns; RErrFull] /\
   option_map res (lget (thr s) 0%nat) = Some [RUnpinned; RWrote; RIns] /\
   cache_data s 64 = Some 22 /\ total_len s = 1 /\ used s = PAGE_SIZE.
@@ -157,17 +172,24 @@ Check contents_last_write :
   contents_ok (run step sched (init_st total limit c0 o progs)).
 Check budget_accounting :
   forall total limit c0 o progs sched,
-  (NSH <= total)%nat -> NoDup (map fst progs) -> 0 <= c0 ->
+  (NSH <= total)%nat -> 0 <= c0 ->
   let s := run step sched (init_st total limit c0 o progs) in
-  gleak s = false -> grace s = false -> quiescent s -> used s = c0 + PAGE_SIZE * total_len s.
-Check budget_refuted_init_failure :
+  quiescent s -> used s = c0 + PAGE_SIZE * total_len s.
+Check budget_zero_when_emptied :
+  forall total limit c0 o progs sched,
+  (NSH <= total)%nat -> 0 <= c0 ->
+  let s := run step sched (init_st total limit c0 o progs) in
+  quiescent s -> total_len s = 0 -> used s = c0.
+Check historical_init_failure_leaked :
   exists progs sched,
-    let s := run step sched (init_st 64 4194304 0 0 progs) in
-    idle_b s = true /\ gleak s = true /\ grace s = false /\ total_len s = 0 /\ used s = PAGE_SIZE.
-Check budget_refuted_clear_race :
+    let s := run CacheV0.step sched (CacheV0.init_st 64 4194304 0 0 progs) in
+    CacheV0.idle_b s = true /\ CacheV0.gleak s = true /\ CacheV0.grace s = false /\
+    CacheV0.total_len s = 0 /\ CacheV0.used s = PAGE_SIZE.
+Check historical_clear_race_leaked :
   exists progs sched,
-    let s := run step sched (init_st 64 4194304 0 0 progs) in
-    idle_b s = true /\ gleak s = false /\ grace s = true /\ total_len s = 0 /\ used s = PAGE_SIZE.
+    let s := run CacheV0.step sched (CacheV0.init_st 64 4194304 0 0 progs) in
+    CacheV0.idle_b s = true /\ CacheV0.gleak s = false /\ CacheV0.grace s = true /\
+    CacheV0.total_len s = 0 /\ CacheV0.used s = PAGE_SIZE.
 
 Print Assumptions evict_never_pinned.
 Print Assumptions index_entries_bijection_remove.
@@ -179,5 +201,6 @@ Print Assumptions no_bad_results_all_schedules.
 Print Assumptions no_panic_all_schedules.
 Print Assumptions contents_last_write.
 Print Assumptions budget_accounting.
-Print Assumptions budget_refuted_init_failure.
-Print Assumptions budget_refuted_clear_race.
+Print Assumptions budget_zero_when_emptied.
+Print Assumptions historical_init_failure_leaked.
+Print Assumptions historical_clear_race_leaked.
